@@ -385,6 +385,16 @@ def c03(rep, tier):
                           'is its final size', floor=3)
     MUT_OK = ('push_back', 'emplace_back')
     ACCESS = ('operator[]', 'size', 'at', 'begin', 'end', 'back', 'empty', 'cbegin', 'cend')
+    # allocation goes to the live symbol table: a register fetched from a by-value copy of it is lost with the copy
+    for f in m.all_fns():
+        for e in walk_all_exprs(f['body']):
+            if e.get('k') == 'call' and e.get('obj') is not None and m.callee(e) in ('FunctionGenState::fetchTemporary', 'FunctionGenState::fetchVariableRegister'):
+                o = strip_casts(e['obj'])
+                if o.get('k') == 'ref' and o.get('dk') == 'var':
+                    decl = [v for st in walk_stmts(f['body']) if st['k'] == 'decl' for v in st['vars'] if v['d'] == o['d']]
+                    if decl and not decl[0].get('is_ref') and 'FunctionGenState' in (decl[0].get('cty') or '') and '*' not in decl[0]['cty']:
+                        D.violation('%s: %s on a copy' % (f['q'], m.callee(e).split('::')[-1]), 'the register is allocated in %s, a by-value copy of the symbol table: the routine\'s own table '
+                                    'does not grow, so the frame size recorded later is too small for this register' % o['name'], W(m, f, e))
     for f in m.all_fns():
         for e in walk_all_exprs(f['body']):
             if e.get('k') == 'call' and e.get('obj') is not None:
@@ -707,6 +717,33 @@ def c03(rep, tier):
                     call_err = [x for x in direct_exprs(c['t']) if is_call(x, 'GenState::err') and 'UNKNOWN_MARK' in show(x)]
                     if lab and call_err:
                         loopok = True
+    # "not set yet" is one sentinel value: what createLabel() stores is what the unset-mark test and the backpatcher compare with
+    def lit(e):
+        e = strip_casts(e)
+        if e is None:
+            return None
+        if e.get('k') == 'int':
+            return e['v']
+        if e.get('k') == 'un' and e['op'] == '-' and strip_casts(e['e']).get('k') == 'int':
+            return -strip_casts(e['e'])['v']
+        return None
+    cl = m.fn('GenState::createLabel')
+    stored = [lit(e['args'][0]) for e in walk_all_exprs(cl['body']) if is_call(e, '::push_back') and field_chain(e['obj'])[1][-1:] == ['labels']]
+    tested = []
+    for f2 in m.all_fns():
+        for e in walk_all_exprs(f2['body']):
+            if e.get('k') == 'bin' and e['op'] in ('==', '!='):
+                for a, b in ((e['l'], e['r']), (e['r'], e['l'])):
+                    oa = m.origin(f2, a)
+                    if lit(b) is not None and oa is not None and is_call(strip_casts(oa), '::operator[]') and field_chain(strip_casts(oa)['obj'])[1][-1:] == ['labels']:
+                        tested.append((lit(b), f2, e))
+    if len(stored) == 1 and stored[0] is not None and tested:
+        wrong = [(v, f2, e) for v, f2, e in tested if v != stored[0]]
+        G.check(not wrong, 'createLabel: unset sentinel', 'a fresh label holds %d and every "is it set?" test compares with %d' % (stored[0], stored[0]),
+                'createLabel() stores %d for "not set yet" but %s tests for %s: a jump to a mark that is never set is neither reported nor trapped and is patched to position %d' % (
+                    stored[0], wrong[0][1]['q'] if wrong else '', wrong[0][0] if wrong else '', stored[0]), W(m, cl))
+    else:
+        G.unknown('createLabel: unset sentinel', 'sentinel of unset labels not recognised (%s stored, %d tests)' % (stored, len(tested)))
     G.check(loopok, 'popSymbols: unset marks', 'every mark whose label is still -1 is reported as UNKNOWN_MARK',
             'marks that are referenced but never set are not reported', W(m, pop))
     bpf = m.fn('GenState::backpatch')
@@ -1071,6 +1108,22 @@ def c08(rep, tier):
                 unguarded_map_erase.append(ev)
         if pb_elem and unguarded_map_erase:
             why.append('map-level erase of the location is not guarded by an emptiness test of its site list')
+        # the location of the popped site is looked up before its line_info entry is erased
+        for ev in gg.calls():
+            e2 = ev.e
+            if e2.get('obj') is not None and field_chain(strip_casts(e2['obj']))[1][-1:] == ['line_info'] and m.callee(e2).split('::')[-1] in ('operator[]', 'at', 'find'):
+                late = [er for er in li_er if gg.can_follow(er, ev) and not (er.node is ev.node and ev.idx < er.idx) and not any(x is e2 for x in walk_expr(er.e))]
+                if late:
+                    why.append('the location is read from line_info (%s) after the entry was erased: operator[] then creates an empty location and the real one keeps the popped site' % show(e2)[:40])
+        for pev in pb_elem:
+            oe = strip_casts(pev.e.get('obj') or (pev.e['args'][0] if pev.e.get('args') else None))
+            if oe is not None and oe.get('k') == 'ref' and oe.get('dk') == 'var':
+                decl = [v for st in walk_stmts(f['body']) if st['k'] == 'decl' for v in st['vars'] if v['d'] == oe['d']]
+                if decl and not decl[0].get('is_ref') and '*' not in (decl[0].get('cty') or ''):
+                    wb = [x for x in walk_all_exprs(f['body']) if ((x.get('k') == 'call' and m.callee(x).endswith('::operator=')) or x.get('k') == 'assign') and
+                          any(y.get('k') == 'ref' and y.get('d') == oe['d'] for y in walk_expr((x.get('args') or [x.get('r')])[0] or {}))]
+                    if not wb:
+                        why.append('the site is removed from %s, a by-value copy of the location\'s list that is never written back: the table keeps the popped site' % oe['name'])
         if pb_elem and not pb_map_er:
             why.append('the site is removed from its location\'s list, but a location whose list became empty is never erased: it stays available '
                        '(setBreakPoint accepts it) although no instruction can report it')
@@ -1471,6 +1524,23 @@ def c07(rep, tier):
     G7 = rep.rule('C07.g', 'advanceLine creates a site exactly when generation moves to another line or another file (except the hidden file), '
                            'after updating the current location to it', floor=3)
     advance_line_semantics(G7, m, rep)
+    K7 = rep.rule('C07.k', 'labels of loop constructs are set at the next emission position (a back edge does not re-enter through the header\'s site); only a user '
+                           'mark is set at the mark position, in front of its own site', floor=3)
+    for f in m.all_fns():
+        for e in walk_all_exprs(f['body']):
+            if is_call(e, 'GenState::setLabel') and len(e.get('args', [])) == 2:
+                pos = strip_casts(m.origin(f, e['args'][1]))
+                inst = '%s: setLabel(%s, ...)' % (f['q'], show(e['args'][0])[:30])
+                if f['q'] == 'dispatchMark' or 'mark' in f['q'].lower():
+                    K7.check(is_call(pos, 'GenState::getMarkPos'), inst, 'a mark is set at getMarkPos(): a jump to it passes the site of the mark\'s line',
+                             'the mark is set at %s: a jump to the label does not stop on the label\'s line' % show(pos), W(m, f, e))
+                elif is_call(pos, 'GenState::getNextPos'):
+                    K7.ok(inst, 'set at getNextPos()', W(m, f, e))
+                elif is_call(pos, 'GenState::getMarkPos'):
+                    K7.violation(inst, 'a loop label is set at getMarkPos(), i.e. in front of the pending line site: every jump back to it passes that site again, so the header line '
+                                 '(or the line before the loop exit) is visited once per iteration instead of once', W(m, f, e))
+                else:
+                    K7.unknown(inst, 'label position %s not recognised' % show(pos))
     H7 = rep.rule('C07.h', 'the variable view reports every entry of the activation\'s stack map with the word at data_start + register', floor=1)
     variable_view_rule(H7, rep)
     E = rep.rule('C07.e', 'END keywords of LOOP, WHILE and PROGRAM are kept as marks so that their line gets a site', floor=3)
@@ -1648,6 +1718,15 @@ def checked_conversion(gm, f, call):
                 var = d
     if var is None:
         return False, 'result not stored'
+    # the range test must see the whole converted value: storing strtol's long in an int wraps values >= 2^31 before the test
+    vdecl = [v for st in walk_stmts(f['body']) if st['k'] == 'decl' for v in st['vars'] if v['d'] == var]
+    if vdecl:
+        vt = (vdecl[0].get('cty') or '').replace('const ', '')
+        rt = (call.get('cty') or '').replace('const ', '')
+        wide = {'long': 2, 'long long': 2, 'unsigned long': 2, 'unsigned long long': 2, 'int': 1, 'unsigned int': 1, 'short': 0, 'char': 0, 'unsigned char': 0, 'unsigned short': 0}
+        if vt in wide and rt in wide and wide[vt] < wide[rt]:
+            return False, 'the result of %s (%s) is stored in a variable of type %s before the range test: values of 2^31 and more wrap around and pass the test' % (
+                (call.get('callee') or '?').split('::')[-1], rt, vt)
     for cn in g.nodes:
         if cn.kind == 'cond' and cn.exprs:
             c = strip_casts(cn.exprs[0])
@@ -1688,8 +1767,17 @@ def c20_gen(rep, tier):
     silent_fns = set()
     for f, call in sites:
         model = mm
-        ok, why = checked_conversion(model, f, call)
         inst = '%s(%s): %s' % (f['q'], os.path.basename(f['file']), show(call)[:60])
+        if (call.get('callee') or '') in ('std::stoi', 'std::stol', 'std::stoll', 'std::stoul', 'std::stoull'):
+            # these report a value outside their result type by throwing std::out_of_range (and std::invalid_argument): a range
+            # test after the call never sees such a value, and nothing in the compiler catches the exception
+            has_try = any(x['k'] == 'try' for x in walk_stmts(f['body']))
+            if not has_try:
+                A2.violation(inst, '%s throws std::out_of_range for a literal beyond the range of its result type: the range test that follows is never reached and the '
+                             'exception leaves compile()' % call['callee'], '%s:%d' % (os.path.relpath(f['file'], facts.repo), call['loc'][0]),
+                             witness={'input': 'a literal of 20 or more digits (priority, $n or number)'})
+                continue
+        ok, why = checked_conversion(model, f, call)
         if ok is None:
             A2.unknown(inst, why, '%s:%d' % (os.path.relpath(f['file'], facts.repo), call['loc'][0]))
             continue
@@ -1946,8 +2034,20 @@ def variable_view_rule(R, rep):
                 idx_ok = 'data_start' in idx and (ev['name'] + '.first') in idx and '+' in idx
             if key == ev['name'] + '.second' and idx_ok:
                 conds = enclosing_conditions(st['body'], None, target_expr=e)
+                # loops around the walk over the stack map: they must run at least once for every frame that has a register
+                outer_bad = None
+                for o2 in walk_stmts(f['body']):
+                    if o2['k'] == 'for' and o2 is not st and any(x is st for x in walk_stmts(o2['body'])):
+                        iv = o2['init']['vars'][0] if o2.get('init') and o2['init']['k'] == 'decl' and o2['init']['vars'] else None
+                        i0 = strip_casts(iv.get('init')) if iv is not None and iv.get('init') is not None else None
+                        c2 = strip_casts(o2.get('c')) if o2.get('c') is not None else None
+                        if i0 is not None and i0.get('k') == 'int' and i0['v'] >= 1 and c2 is not None and c2.get('k') == 'bin' and c2['op'] in ('<', '<=') and 'seg_size' in show(c2['r']):
+                            outer_bad = 'the walk over the stack map sits in a loop that starts at %d and runs below seg_size: an activation with %s register%s gets an empty view' % (
+                                i0['v'], 'exactly one' if i0['v'] == 1 else 'at most %d' % i0['v'], '' if i0['v'] == 1 else 's')
                 if conds:
                     why = 'the entry is reported only under the condition %s: some variables of the routine are missing from the view' % conds[0][0]
+                elif outer_bad:
+                    why = outer_bad
                 else:
                     ok = True
     R.check(ok, 'getActivationVariables', 'for every (register, name) of the stack map: view[name] = data[data_start + register], unconditionally', why,
